@@ -1077,6 +1077,12 @@ func (p *Parser) parseIf() ast.Node {
 			p.nextToken() // move to the "if"
 			nestedIfToken := p.curToken
 			nestedIf := p.parseIf()
+			if nestedIf == nil {
+				if p.err == nil {
+					p.setTokenError(p.curToken, "invalid syntax in if expression")
+				}
+				return nil
+			}
 			alternative := ast.NewBlock(nestedIfToken, []ast.Node{nestedIf})
 			return ast.NewIf(ifToken, cond, consequence, alternative)
 		}
@@ -1734,10 +1740,22 @@ func (p *Parser) parseMapOrSet() ast.Node {
 	}
 	p.nextToken() // move to the first key
 	firstKey := p.parseExpression(LOWEST)
+	if firstKey == nil {
+		if p.err == nil {
+			p.setTokenError(p.peekToken, "invalid syntax in set expression")
+		}
+		return nil
+	}
 	if p.peekTokenIs(token.COLON) { // This is a map
 		p.nextToken() // move to the ":"
 		p.nextToken() // move to the first value
 		firstValue := p.parseExpression(LOWEST)
+		if firstValue == nil {
+			if p.err == nil {
+				p.setTokenError(p.curToken, "invalid syntax in map expression")
+			}
+			return nil
+		}
 		pairs := map[ast.Expression]ast.Expression{firstKey: firstValue}
 		for !p.peekTokenIs(token.RBRACE) {
 			if p.peekTokenIs(token.NEWLINE) {
@@ -1794,6 +1812,16 @@ func (p *Parser) parseMapOrSet() ast.Node {
 				return nil
 			}
 			key := p.parseExpression(LOWEST)
+			if key == nil {
+				if p.err != nil {
+					return nil
+				}
+				if !p.curTokenIs(token.EOF) {
+					p.setTokenError(p.curToken, "invalid syntax in set expression")
+					return nil
+				}
+				break // the end of the input is reported below
+			}
 			items = append(items, key)
 			if !p.peekTokenIs(token.COMMA) {
 				break
